@@ -74,6 +74,18 @@ def compare(M, post, pre):
     return d
 
 
+def apply_inject(M, api):
+    if api == 'take_physical_irq_exception':
+        M.take_irq()
+    elif api == 'take_physical_fiq_exception':
+        M.take_fiq()
+    elif api == 'send_event_local':
+        M.s['event_register'] = True
+    else:
+        return False
+    return True
+
+
 def run(case, stop_on=('unpred', 'skip'), quirks=()):
     """returns Result for the first step that disagrees or cannot be compared; 'ok' if all steps agree"""
     cpu, pre, posts, excs = e1.run(case)
@@ -87,8 +99,15 @@ def run(case, stop_on=('unpred', 'skip'), quirks=()):
     if by:
         res.status, res.diffs, res.post, res.exc = 'ok', by, posts[-1] if posts else pre, None
         return res
+    inject = case.get('inject') or {}
     for i, post in enumerate(posts):
         res.step = i
+        api = inject.get(str(i))
+        if api:
+            # what the embedder did before this step (e1.run made the same call on the instance)
+            if not apply_inject(M, api):
+                res.status, res.detail, res.post, res.exc = 'skip', 'injection without reference semantics: ' + api, post, excs[i]
+                return res
         st, detail = rstep.step(M)
         res.status, res.detail = st, detail
         res.row = getattr(M, 'row', None)
@@ -116,6 +135,8 @@ def run(case, stop_on=('unpred', 'skip'), quirks=()):
                     res.status = 'notimpl-state-changed'
             elif excs[i] is None:
                 M2 = Machine(prev, [tuple(m) for m in case['mems']], cfg, case.get('hooked', False))
+                if api:
+                    apply_inject(M2, api)
                 M2.take_undef()
                 d = compare(M2, post, prev)
                 if d:
